@@ -274,3 +274,44 @@ func c06ResetWithoutOpen(r *Run) {
 		}
 	}
 }
+
+// c06UnknownMethodStream: a streaming call to a service / method the server does not have, with
+// messages sent before anything could come back. Whatever the server says about the id, its side of
+// the conversation obeys the protocol: at most one trailer, nothing after it (checkWire).
+func c06UnknownMethodStream(r *Run) {
+	if !r.Want("unknownmethod") {
+		return
+	}
+	for rep, reps := 0, r.Scale(2, 20); rep < reps && r.NumViolations() <= 4; rep++ {
+		for _, method := range []string{"/verif.Echo/Nope", "/nope.Svc/X"} {
+			for msgs := 0; msgs <= 3; msgs++ {
+				in := map[string]any{"method": method, "messages": msgs, "rep": rep}
+				r.Progress("unknownmethod", in)
+				rig := NewRig(RigOpt{Serialise: rep%2 == 0})
+				rig.Impl.SetUnary(func(ctx context.Context, req []byte) ([]byte, error) { return req, nil })
+				ctx, cancel := context.WithCancel(context.Background())
+				within(hangTimeout, func() {
+					cs, err := rig.CC.NewStream(ctx, descBidi, method)
+					if err != nil {
+						return
+					}
+					for i := 0; i < msgs; i++ {
+						sendB(cs, []byte("m"))
+					}
+					cs.CloseSend()
+				})
+				// a later, ordinary call on the connection is the barrier: the server has seen all of the above
+				cctx, ccancel := context.WithTimeout(context.Background(), hangTimeout)
+				callUnary(cctx, rig.CC, []byte("after"))
+				ccancel()
+				time.Sleep(10 * time.Millisecond)
+				evs := rig.Wire.Snapshot()
+				cancel()
+				r.Eval(fmt.Sprintf("unknownmethod/%s/%d/%d", method, msgs, rep), true)
+				r.Count("c06.unknownmethod")
+				checkWire(r, "unknownmethod.wire", evs, in)
+				rig.Close()
+			}
+		}
+	}
+}
